@@ -125,7 +125,9 @@ class StockSim(Engine):
     def tasks(self, prop, tier, seed):
         n = {"quick": 2500, "thorough": 60000}[tier]
         ns = {"quick": 80, "thorough": 2000}[tier]
-        return [{"kind": "hist", "idx": k} for k in range(n)] + [{"kind": "sweep", "idx": k} for k in range(ns)]
+        nsc = {"quick": 160, "thorough": 4000}[tier]
+        return [{"kind": "hist", "idx": k} for k in range(n)] + [{"kind": "sweep", "idx": k} for k in range(ns)] + \
+               [{"kind": "script", "idx": k} for k in range(nsc)]
 
     def budget(self, prop, tier):
         return 300 if tier == "quick" else 3000
@@ -134,6 +136,8 @@ class StockSim(Engine):
     def generate(self, task, prop, seed, tier):
         rng = Rng(self.NAME, prop, seed, task["kind"], task["idx"])
         world = gen_world(rng)
+        if task["kind"] == "script":
+            return self._gen_script(rng, world, task["idx"])
         nd = 1 + len(world["extra"])
         fp = rng.choice([0.0, 0.1, 0.25]) if task["kind"] == "hist" else 0.0
         fp_bad = fp if task["kind"] == "hist" else 0.2  # sweeps: operations that fail by themselves are swept too (faults during error handling)
@@ -171,8 +175,47 @@ class StockSim(Engine):
             ops.append(op)
         return {"world": world, "ops": ops}
 
+    def _gen_script(self, rng, world, idx):
+        """histories with a shape that random mixing rarely produces"""
+        world["system"] = False
+        for s in world["stocks"]:
+            if s["cls"] == "simple":
+                s["cls"] = rng.choice(["inflow", "stockdriven"])
+            s.pop("grid2", None)
+        k = rng.randint(0, len(world["stocks"]) - 1)
+        if idx % 2 == 0:
+            # (A) the tables are rebuilt by somebody else between set_prms and this stock's compute: a table read, or the other
+            # stock that shares the model; parameters go from one number for all to item-specific
+            if not any(len(e["items"]) >= 2 for e in world["extra"]):
+                world["extra"] = [{"letter": "a", "name": "Alpha", "items": ["a0x", "a1x", "a2x"]}]
+            nd = 1 + len(world["extra"])
+            per_item = [i + 1 for i, e in enumerate(world["extra"]) if len(e["items"]) >= 2]
+            scalar = lambda: {"form": "scalar", "dims": [], "perm": 0, "vseed": rng.randint(0, 10 ** 6)}  # noqa
+            by_item = lambda: {"form": rng.choice(["array", "ndarray"]), "dims": list(per_item) if rng.chance(0.7) else list(range(nd)),  # noqa
+                               "perm": rng.randint(0, 5), "vseed": rng.randint(0, 10 ** 6)}
+            other = [j for j in range(len(world["stocks"])) if j != k]
+            between = {"op": "read", "k": k, "what": rng.choice(["sf", "pdf"])} if (not other or rng.chance(0.6)) else {"op": "compute", "k": other[0], "twice": False}
+            ops = [{"op": "set_prms", "k": k, "specs": [scalar(), scalar()]}, {"op": "compute", "k": k, "twice": False},
+                   {"op": "set_prms", "k": k, "specs": [by_item(), by_item()]}, between, {"op": "compute", "k": k, "twice": rng.chance(0.3)}]
+            if rng.chance(0.5):
+                ops += [{"op": "set_prms", "k": k, "specs": [scalar(), scalar()]}, dict(between), {"op": "compute", "k": k, "twice": False}]
+            return {"world": world, "ops": ops}
+        # (B) parameter arrays with more than a thousand entries that change somewhere in the middle only
+        world["time"] = [1990 + i for i in range(26)]
+        world["extra"] = [{"letter": "a", "name": "Alpha", "items": [f"a{j}x" for j in range(42)]}]
+        world["grid"] = "unit"
+        full = lambda: {"form": rng.choice(["array", "ndarray"]), "dims": [0, 1], "perm": 0, "vseed": rng.randint(0, 10 ** 6)}  # noqa
+        ops = [{"op": "set_prms", "k": k, "specs": [full(), full()]}, {"op": "compute", "k": k, "twice": False}]
+        for _ in range(rng.randint(1, 2)):
+            ops += [{"op": "set_prms", "k": k, "specs": [full(), full()], "bump": rng.randint(1, 10 ** 6)}, {"op": "compute", "k": k, "twice": False}]
+        return {"world": world, "ops": ops}
+
     def run_task(self, task, prop, seed, tier):
         run = self.generate(task, prop, seed, tier)
+        if task["kind"] == "script":
+            # every stock gets a driver first (an all-zero stock computes to zero whatever the tables are)
+            run["ops"] = [{"op": "set_driver", "k": j, "how": "whole", "vseed": 1000 + 17 * j + task["idx"]}
+                          for j in range(len(run["world"]["stocks"]))] + run["ops"]
         res = self.execute(run, prop)
         if task["kind"] == "sweep" and not res.get("violation"):
             res = self._sweep(run, prop, Rng(self.NAME, "sweep", seed, task["idx"]), res, tier)
@@ -558,6 +601,18 @@ class StockSim(Engine):
             if op.get("nudge") and all(v is not None for v in lt.prms.values()):
                 kw = {k_: np.array(v, copy=True) * (1.0 + op["nudge"]) for k_, v in lt.prms.items()}
                 self._probe(st, "set_prms_almost_equal_values")
+            if op.get("bump") and all(v is not None for v in lt.prms.values()):
+                # the parameters as they are, except for one entry somewhere in the middle
+                kw = {}
+                for k_, v in lt.prms.items():
+                    a = np.array(v, copy=True, dtype=float)
+                    if a.ndim:
+                        idx = tuple((op["bump"] // (7 ** ax)) % max(1, sz - 8) + 4 if sz > 8 else sz // 2 for ax, sz in enumerate(a.shape))
+                        a[idx] = a[idx] * 1.5 + 0.25
+                    else:
+                        a = a * 1.5 + 0.25
+                    kw[k_] = a
+                self._probe(st, "set_prms_one_interior_entry_of_a_large_array")
             if op.get("bad"):
                 st.faults["negative_parameter"] = st.faults.get("negative_parameter", 0) + 1
             out = self._call(st, op, n, lambda: lt.set_prms(**kw))
